@@ -390,6 +390,10 @@ func (fv *FV) specEnv(st *State, atPos token.Pos, results []Term, post bool) *Sp
 				return fv.readVar(st, obj), true
 			}
 		}
+		// package-level variable of the function's own package
+		if v, ok := fv.pk.Types.Scope().Lookup(name).(*types.Var); ok {
+			return fv.globalVar(v), true
+		}
 		return Term{}, false
 	}
 	return env
@@ -462,10 +466,85 @@ func (fv *FV) globalVar(v *types.Var) Term {
 		if v.Pkg().Path() == "github.com/formancehq/ledger/internal" && v.Name() == "Zero" {
 			fv.decls = append(fv.decls, fmt.Sprintf("(assert (= %s (bint 0)))", name))
 		}
+		fv.globalInitFacts(v, Term{name, so})
 		if so == SErr {
 			fv.decls = append(fv.decls, fmt.Sprintf("(assert (not (= %s err_nil)))", name))
 			fv.decls = append(fv.decls, fmt.Sprintf("(assert (errIs %s %s))", name, fv.ss.StrConst("errclass:"+v.Name())))
 		}
 	}
 	return Term{name, so}
+}
+
+
+// globalInitFacts: a package-level variable declared as `var x = f(<constants>)` where f has a contract without
+// requires/modifies (regexp.MustCompile) satisfies f's postconditions for those arguments. The declaration is read from
+// the loaded source; reassignment of such variables elsewhere is not looked for (they are compile-once patterns).
+func (fv *FV) globalInitFacts(v *types.Var, g Term) {
+	dp := fv.p.AllPkgs[v.Pkg().Path()]
+	if dp == nil || dp.TypesInfo == nil {
+		return
+	}
+	var init ast.Expr
+	for _, f := range dp.Syntax {
+		for _, d := range f.Decls {
+			gd, ok := d.(*ast.GenDecl)
+			if !ok {
+				continue
+			}
+			for _, sp := range gd.Specs {
+				vs, ok := sp.(*ast.ValueSpec)
+				if !ok || len(vs.Values) != len(vs.Names) {
+					continue
+				}
+				for i, n := range vs.Names {
+					if dp.TypesInfo.Defs[n] == v {
+						init = vs.Values[i]
+					}
+				}
+			}
+		}
+	}
+	call, ok := init.(*ast.CallExpr)
+	if !ok {
+		return
+	}
+	var callee *types.Func
+	switch f := call.Fun.(type) {
+	case *ast.SelectorExpr:
+		callee, _ = dp.TypesInfo.ObjectOf(f.Sel).(*types.Func)
+	case *ast.Ident:
+		callee, _ = dp.TypesInfo.ObjectOf(f).(*types.Func)
+	}
+	if callee == nil {
+		return
+	}
+	fc := fv.p.Contracts[funcKey(callee)]
+	if fc == nil || len(fc.Requires) > 0 || len(fc.Modifies) > 0 || len(fc.Results) != 1 || len(fc.Params) != len(call.Args) {
+		return
+	}
+	vals := map[string]Term{fc.Results[0]: g}
+	for i, a := range call.Args {
+		tv, ok := dp.TypesInfo.Types[a]
+		if !ok || tv.Value == nil {
+			return
+		}
+		ct, ok := fv.constTerm(tv, a.Pos())
+		if !ok {
+			return
+		}
+		vals[fc.Params[i]] = ct
+	}
+	env := &SpecEnv{reg: fv.reg, pk: fc.Pkg, bound: map[string]Term{}}
+	env.lookup = func(name string, old bool) (Term, bool) {
+		t, ok := vals[name]
+		return t, ok
+	}
+	for _, c := range fc.Ensures {
+		t, err := env.EvalBool(c.X)
+		if err != nil {
+			return
+		}
+		fv.decls = append(fv.decls, "(assert "+t.S+")")
+	}
+	fv.assumedUsed[fv.p.funcDisplayName(fc)+" (initializer of "+v.Pkg().Name()+"."+v.Name()+")"] = true
 }
